@@ -159,6 +159,45 @@ func (d *driver) storm() {
 		go submitList(third[g])
 	}
 	rounds += drive()
+	// fourth phase: ONE pool of more than a thousand entries (all submitted before the next tick); every submitter
+	// resubmits its entry the moment it is acknowledged. The acknowledgement says the entry is in the log: the
+	// resubmission must come back with the same (index, timestamp) from wherever the log keeps it at that instant
+	// (seed C07-8: the cache write of a large pool moved to the background, after the in-sequencing map was cleared)
+	const bigPool = 1300
+	var fourth []*ctlog.PendingLogEntry
+	for k := 0; k < bigPool; k++ {
+		c := make([]byte, 24)
+		d.r.Read(c)
+		copy(c, fmt.Sprintf("p4-%05d", k))
+		fourth = append(fourth, &ctlog.PendingLogEntry{Certificate: c})
+	}
+	for _, e := range fourth {
+		f, src := li.log.VerifAddLeafToPool(context.Background(), e, false)
+		a := &stormAck{e: e, src: src}
+		mu.Lock()
+		acks = append(acks, a)
+		mu.Unlock()
+		waits.Add(1)
+		go func(e *ctlog.PendingLogEntry) {
+			defer waits.Done()
+			ctx, cancel := context.WithTimeout(context.Background(), 60*time.Second)
+			defer cancel()
+			a.le, a.err = f(ctx)
+			if a.err != nil {
+				return
+			}
+			f2, src2 := li.log.VerifAddLeafToPool(context.Background(), e, false)
+			b := &stormAck{e: e, src: src2}
+			mu.Lock()
+			acks = append(acks, b)
+			mu.Unlock()
+			b.le, b.err = f2(ctx)
+		}(e)
+	}
+	d.stats["storm-bigpool-entries"] += bigPool
+	subs.Add(1)
+	subs.Done()
+	rounds += drive()
 	d.stats["storm-rounds"] += rounds
 	w := d.w
 	w.mu.Lock()
